@@ -23,12 +23,12 @@ type fnTrace struct {
 type traceViolation struct{ site, msg string }
 
 type traceMon struct {
-	mu      sync.Mutex
-	fns     map[*vm.BytecodeFunction]*fnTrace
-	viol    []traceViolation
-	seen    map[string]bool
-	events  int64
-	points  int64
+	mu       sync.Mutex
+	fns      map[*vm.BytecodeFunction]*fnTrace
+	viol     []traceViolation
+	seen     map[string]bool
+	events   int64
+	points   int64
 	rechecks int64
 }
 
